@@ -47,6 +47,8 @@ val removelast : 'a1 list -> 'a1 list
 
 val rev : 'a1 list -> 'a1 list
 
+val concat : 'a1 list list -> 'a1 list
+
 val map : ('a1 -> 'a2) -> 'a1 list -> 'a2 list
 
 val fold_right : ('a2 -> 'a1 -> 'a1) -> 'a1 -> 'a2 list -> 'a1
@@ -84,6 +86,8 @@ module Pos :
   val pred_double : positive -> positive
 
   val mul : positive -> positive -> positive
+
+  val size_nat : positive -> nat
 
   val compare_cont : comparison -> positive -> positive -> comparison
 
@@ -135,6 +139,8 @@ module Z :
   val div_eucl : z -> z -> z * z
 
   val div : z -> z -> z
+
+  val modulo : z -> z -> z
  end
 
 type err =
@@ -154,6 +160,8 @@ val get : 'a1 list -> nat -> 'a1 res
 val set_nth : 'a1 list -> nat -> 'a1 -> 'a1 list res
 
 type str = z list
+
+val str_eqb : str -> str -> bool
 
 val last_n : nat -> 'a1 list -> 'a1 list
 
@@ -534,5 +542,264 @@ val d_sessions : nat -> fs -> session list -> val0 list
 val d_spec_stored : nat -> fs -> str list -> val0
 
 val dispatch_history : z -> val0 -> val0 option
+
+val c_sq : z
+
+val c_bs : z
+
+val c_sp : z
+
+val c_nl : z
+
+val is_meta : z -> bool
+
+type mode =
+| Out
+| InWord
+| InSQ
+| Esc
+
+type lst = { l_mode : mode; l_cur : str; l_acc : str list }
+
+val step : lst -> z -> lst option
+
+val run : lst -> str -> lst option
+
+val finish : lst -> str list option
+
+val l_init : lst
+
+val sh_words : str -> str list option
+
+type seg =
+| SLit of str
+| SWords of str list
+
+val feed_word : lst -> str -> lst option
+
+val feed_words : lst -> str list -> lst option
+
+val feed_segs : lst -> seg list -> lst option
+
+val template_words : seg list -> str list option
+
+val join_sp : str list -> str
+
+val esc_sh : str -> str
+
+val esc_fish : str -> str
+
+val quote_entry : bool -> str -> str
+
+val escape_single_quote : str -> str
+
+val tmux_suffix : str
+
+val tmux_args_go : str -> str list -> str
+
+val tmux_arg_str : str -> str list -> str
+
+val export_word : str
+
+val export_line : str -> str -> str
+
+val strip_prefix : str -> str -> str option
+
+val has_prefix : str -> str -> bool
+
+val has_suffix : str -> str -> bool
+
+val trim_suffix : str -> str -> str
+
+val span : (z -> bool) -> str -> nat * str
+
+val join_str : str -> str list -> str
+
+val mid : nat -> str -> str res
+
+val c_lb : z
+
+val c_rb : z
+
+val in_flags : z -> bool
+
+val in_range : z -> bool
+
+val closes : str -> bool
+
+val m_a1 : str -> nat option
+
+val m_a2 : str -> nat option
+
+val s_fzf_query : str
+
+val s_fzf_action : str
+
+val s_fzf_prompt : str
+
+val m_a3 : str -> nat option
+
+val opt_char : z -> str -> nat * str
+
+val m_a4 : str -> nat option
+
+val match_at : str -> nat option
+
+type piece =
+| PLit of str
+| PEsc of str
+| PPh of str
+
+val flush_lit : str -> piece list -> piece list
+
+val scan : str -> nat -> str -> piece list
+
+type flags = { f_plus : bool; f_space : bool; f_number : bool; f_file : 
+               bool; f_raw : bool }
+
+val no_flags : flags
+
+val pp_go : str -> flags -> str -> flags * str
+
+val s_fzf_colon : str
+
+val parse_placeholder : str -> (flags * str) res
+
+val is_digit : z -> bool
+
+val digits_val : z -> str -> z option
+
+val int_min : z
+
+val int_max : z
+
+val atoi : str -> z option
+
+val itoa_pos : nat -> z -> str -> str
+
+val bits : z -> nat
+
+val itoa : z -> str
+
+val s_dd : str
+
+val split_dd : str -> str -> str list
+
+type rng = z * z
+
+val new_range : z -> z -> rng
+
+val atoi_nz : str -> z option
+
+val parse_range : str -> rng option
+
+val split_comma : str -> str -> str list
+
+val parse_ranges : str list -> rng list option
+
+val split_nth : str -> rng list option
+
+type awk_state =
+| AwkNil
+| AwkBlack
+| AwkWhite
+
+val awk_white : z -> bool
+
+val awk_go : str -> awk_state -> str -> str list -> str list
+
+val awk_tokens : str -> str list
+
+val split_after : nat -> str -> str -> str -> str list res
+
+val tokenize : str option -> str -> str list res
+
+val sel_go : str list -> z -> z -> z -> str
+
+val sel : str list -> z -> z -> str
+
+val transform1 : str list -> rng -> str
+
+val transform_join : str list -> rng list -> str
+
+val ascii_space : z -> bool
+
+val space_len : str -> nat
+
+val space_len_rev : str -> nat
+
+val trim_with : (str -> nat) -> nat -> str -> str
+
+val trim_space : str -> str
+
+type item = z * str
+
+val min_int32 : z
+
+type params = { p_delim : str option; p_printsep : str; p_force_plus : 
+                bool; p_query : str; p_current : item list;
+                p_selected : item list; p_action : str; p_prompt : str;
+                p_fish : bool }
+
+type outp =
+| OText of str
+| OWords of (str * str) list
+
+val render : outp -> str
+
+val s_q : str
+
+val s_q_colon : str
+
+val s_braces : str
+
+val s_m_query : str
+
+val s_m_action : str
+
+val s_m_prompt : str
+
+val s_empty_quotes : str
+
+val quoted : params -> str -> str * str
+
+val repl_item : params -> flags -> item -> str * str
+
+val field_value : params -> flags -> rng list -> str -> str res
+
+val repl_fields : params -> flags -> rng list -> item -> (str * str) res
+
+val map_res : ('a1 -> 'a2 res) -> 'a1 list -> 'a2 list res
+
+val over_items :
+  params -> flags -> bool -> (item -> (str * str) res) -> str list ->
+  ((outp * str list) * str list) res
+
+val expand_ph :
+  params -> str -> str list -> ((outp * str list) * str list) res
+
+val expand_all :
+  params -> piece list -> str list -> (outp list * str list) res
+
+val replace_structured :
+  params -> str -> str list -> (outp list * str list) res
+
+val replace_placeholder : params -> str -> str list -> (str * str list) res
+
+val vopt_words : str list option -> val0
+
+val as_item : val0 -> item
+
+val as_optstr : val0 -> str option
+
+val as_params : val0 -> params
+
+val as_seg : val0 -> seg
+
+val v_outp : outp -> val0
+
+val v_piece : piece -> val0
+
+val dispatch_placeholder : z -> val0 -> val0 option
 
 val dispatch : z -> val0 -> val0
